@@ -1444,6 +1444,8 @@ def check_paramobj(ctx, tu, tag=''):
                 out.append(ev)
         return out
 
+    OBSERVERS = {'hasParam', 'params_begin', 'params_end'}
+    n_obs = [0]
     for f in fns:
         name = last(strip_targs(f['q']))
         if f is finder:
@@ -1854,6 +1856,30 @@ def check_paramobj(ctx, tu, tag=''):
                     (und if rv is None or has_unknown(rv) else probs).append(('wrong-value', '%s returns `%s`' % (name, show(rv) if rv else p.term[0])))
         else:
             continue
+        if name in OBSERVERS:
+            # who-may-write: the observers (presence test, iteration bounds) leave every member of every parameter alone - the query
+            # status is a function of the successful typed reads since the last reset only, so no observer may store into it
+            n_obs[0] += 1
+            for p in paths:
+                for ev in p.events:
+                    lhs = None
+                    if ev.kind == 'store' and isinstance(ev.nf, tuple) and ev.nf[:1] == ('field',) and len(ev.nf) == 3:
+                        lhs = ev.nf
+                    elif ev.kind == 'call' and last(ev.how or '') == 'operator=' and isinstance(ev.place, tuple) and ev.place[:1] == ('field',) \
+                            and len(ev.place) == 3:
+                        lhs = ev.place
+                    if lhs is not None and lhs[1] != THIS and lhs[2] in (QUERY, DATA, NAME):
+                        if lhs[2] == QUERY:
+                            probs.append(('observer-writes-query',
+                                          '%s writes `%s` of a parameter (`%s`): only a successful typed getParam may raise the query status and only '
+                                          'resetAllParamQueryStatus may clear it - a mere %s makes a parameter that was never read (or was reset) count as '
+                                          '"queried"' % (name, QUERY, tu.show(ev.node), 'presence test' if name == 'hasParam' else 'observer')))
+                        else:
+                            probs.append(('observer-writes-param', '%s writes `%s` of a parameter (`%s`): an observer must leave the parameters unchanged'
+                                          % (name, lhs[2], tu.show(ev.node))))
+                    elif ev.kind == 'call' and base_name(ev.how or '') == PARAM + '::operator=' and not ev.inlined:
+                        probs.append(('observer-writes-param', '%s assigns a whole Param (`%s`): every member is overwritten, including `%s`'
+                                      % (name, tu.show(ev.node), QUERY)))
         if probs:
             for kind, why in sorted(set(probs)):
                 ctx.violation(R5, inst, why, loc, key='%s|%s|%s|%s' % (R5, file, pname, kind))
@@ -1863,6 +1889,8 @@ def check_paramobj(ctx, tu, tag=''):
         else:
             ctx.ok(R5, inst, '%d path(s) conform' % len(paths), loc)
     n5 += 1
+    if not n_obs[0]:
+        ctx.broken('R-C10-5: no observer (%s) of %s was analysed for writes to the parameters' % ('/'.join(sorted(OBSERVERS)), PO))
     report_search_defects(ctx, tu, se, R5, tag)
     check_aux_state(ctx, tu, se, seq, fns, r, finder, aux_names, aux_info, (DATA, QUERY, NAME), tag)
     return dict(n5=n5, counts=counts)
